@@ -25,18 +25,6 @@ mcvars == <<phase, cs>>
 -----------------------------------------------------------------------------
 (* the universe U-coerce *)
 
-TInt == Named("Int")
-NumL(p) == Num(p, LitKind(p))
-
-USchema == [
-  enums |-> [Color |-> {"RED", "GREEN"}],
-  inputs |-> [In |-> << [n |-> "a", t |-> NonNull(TInt), hasDef |-> FALSE, def |-> Null],
-                        [n |-> "b", t |-> Named("String"), hasDef |-> TRUE, def |-> Str("dflt")],
-                        [n |-> "c", t |-> TInt, hasDef |-> TRUE, def |-> NumL("i42")],
-                        [n |-> "l", t |-> ListOf(NonNull(TInt)), hasDef |-> FALSE, def |-> Null],
-                        [n |-> "n", t |-> Named("In"), hasDef |-> FALSE, def |-> Null] >>],
-  objects |-> {"Thing"} ]
-
 InBases == {"Int", "Float", "Float64", "Int64", "String", "Boolean", "ID", "Time", "Color", "In"}
 OutBases == {"Int", "Float", "Float64", "Int64", "String", "Boolean", "ID", "Time", "Color"}
 
@@ -60,7 +48,7 @@ ASSUME PrintT("@@UNI " \o ToJson([ enums |-> [Color |-> <<"RED", "GREEN">>],
                                    inTypes |-> UNION {AllTypes(b) : b \in InBases},
                                    outTypes |-> UNION {AllTypes(b) : b \in OutBases} \cup {Named("Thing"), ListOf(Named("Thing"))},
                                    points |-> [p \in Points |-> Pt[p].dec],
-                                   holds |-> Holds ]))
+                                   holds |-> Holds, canonF32 |-> CanonF32, canonF64 |-> CanonF64 ]))
 
 -----------------------------------------------------------------------------
 (* C04: value pools *)
@@ -275,11 +263,11 @@ Vector ==
   THEN LET s == SOut
            m == MOut(KnownDev)
        IN IF CompatOut(s, m) THEN cs @@ [exp |-> s]
-          ELSE cs @@ [exp |-> s, expK |-> m, kdevs |-> {d \in KnownDev : MOut({d}) # MOut({})}]
+          ELSE cs @@ [exp |-> s, expK |-> m, kdevs |-> {d \in KnownDev : MOut({d}) # MOut({}) \/ MOut(KnownDev \ {d}) # m}]
   ELSE LET s == SIn
            m == MIn(KnownDev)
        IN IF CompatIn(s, m) THEN cs @@ [exp |-> s]
-          ELSE cs @@ [exp |-> s, expK |-> m, kdevs |-> {d \in KnownDev : MIn({d}) # MIn({})}]
+          ELSE cs @@ [exp |-> s, expK |-> m, kdevs |-> {d \in KnownDev : MIn({d}) # MIn({}) \/ MIn(KnownDev \ {d}) # m}]
 
 Emit == phase = "case" => PrintT("@@VEC " \o ToJson(Vector))
 
